@@ -30,7 +30,7 @@ ASSUMPTIONS = [
 SHARDS = {"quick": 8, "thorough": 16}
 FLOOR = 0.4
 ENTRY = ["kk", "kk-auto", "kk-evaluate", "kk-exploratory", "zhit", "drt-tr-nnls", "drt-lm", "drt-bht", "drt-mrq-fit", "fit"]
-REQUIRED_CLASSES = {t: ["entry:" + e for e in ENTRY] + ["masked", "ascending-input", "garbage:nan"] for t in ("quick", "thorough")}
+REQUIRED_CLASSES = {t: ["entry:" + e for e in ENTRY] + ["masked", "ascending-input", "garbage:nan", "negative-resistance"] for t in ("quick", "thorough")}
 
 
 @st.composite
@@ -41,6 +41,8 @@ def spectrum(draw, max_points=60):
     f = np.logspace(top, top - decades, n)
     lo, hi = math.log10(1 / (2 * math.pi * f.max())) + 0.5, math.log10(1 / (2 * math.pi * f.min())) - 0.5
     els = [[draw(st.floats(10, 1000)), 10.0 ** draw(st.floats(lo, hi)), draw(st.sampled_from([1.0, 0.9, 0.8]))] for _ in range(draw(st.integers(1, 2)))]
+    if draw(st.integers(0, 4)) == 0:
+        els[0][0] = -els[0][0]  # negative differential resistance: Re(Z) and Re(Y) change sign along the spectrum
     mask_n = draw(st.integers(0, int(0.4 * n)))
     idx = draw(st.lists(st.integers(0, n - 1), min_size=mask_n, max_size=mask_n, unique=True))
     if idx and draw(st.booleans()):
@@ -185,12 +187,14 @@ def body(ctx, case):
         labels.add("garbage:" + spec["garbage"])
     if spec["ascending"]:
         labels.add("ascending-input")
+    if any(e[0] < 0 for e in spec["els"]):
+        labels.add("negative-resistance")
     d0, d1 = build(spec, 0), build(spec, 1)
     snap = json.dumps(d0.to_dict(), sort_keys=True, default=str)
     # RuntimeError: scipy's nnls gives up ("Maximum number of iterations reached") - whether that is acceptable is C18's subject
     from pyimpspec.exceptions import ImpedanceError
 
-    refusals = (DRTError, FittingError, KramersKronigError, ZHITError, ImpedanceError, ValueError, RuntimeError)
+    refusals = (DRTError, FittingError, KramersKronigError, ZHITError, ImpedanceError, ValueError, RuntimeError, ArithmeticError)
     try:
         out0, c0 = run_entry(entry, opts, d0)
     except refusals as e:
